@@ -6,6 +6,9 @@
       module ::= (<mod> (sub …) (<class> …))          mod ::= (pkg sub|none)
       class  ::= (<mod> qn alias|none unimpl inner (<classid> …) (<mod> …))      classid ::= (<mod> qn)
       op     ::= (import <mod>) | (get <classid> <ref> (<mod> …))            ref ::= (a n) | (q <mod> qn)
+                 (the module list of a `get` is the observed iteration order of the bank's path set: it has to be a
+                 permutation of the model's path set — `bad-order` otherwise —; the repaired `Bank.get` sorts, so it is
+                 not used any further)
       result ::= ok | notfound | (err e) | (ok <classid>) | bad-order
   (multi <cfg> index group sel kProvider kParams kPriority prio0 <cfg>|none)   → (ok ((ref prio <params table>) …)) | missing | malformed
   (mode <cfg> index group kDefault kApply kEval kProvider kParams <cfg>|none) → (ok <resolved> <resolved>) | missing | malformed
@@ -153,7 +156,7 @@ def runOps (w : World) : St → List Op → List Sexp
     | some (st', none) => .atom "ok" :: runOps w st' rest
   | st, .get i r order :: rest =>
     if !validOrder (getBank i st.banks).paths order then .atom "bad-order" :: runOps w st rest
-    else match ForML.Bank.get w st i r order with
+    else match ForML.Bank.get w st i r with
       | (st', .ok c) => .list [.atom "ok", .list [ofMod c.mod, Sexp.ofNat c.qn]] :: runOps w st' rest
       | (st', .error e) => .list [.atom "err", ofErr e] :: runOps w st' rest
 
